@@ -47,6 +47,30 @@ fn ensure_file_removed(path: &Path) -> Result<()> {
     }
 }
 
+/// Sets the access and/or modification times of the file at `path`,
+/// after opening that path exactly once.
+///
+/// `filetime`'s path-based setters first try to open the path
+/// read-only and, if that fails for any reason, write-only.  When the
+/// file appears between the two attempts (e.g., another process just
+/// published a read-only cached file), the second attempt fails with
+/// `EACCES`: a benign race would surface as a permission error instead
+/// of a missing file.
+fn set_times_at_path(path: &Path, atime: Option<FileTime>, mtime: Option<FileTime>) -> Result<()> {
+    match std::fs::File::open(path) {
+        Ok(file) => filetime::set_file_handle_times(&file, atime, mtime),
+        // Only a file that exists but is not readable (e.g., write-only)
+        // needs `filetime`'s fallback strategies.
+        Err(e) if e.kind() == ErrorKind::PermissionDenied => match (atime, mtime) {
+            (Some(atime), Some(mtime)) => filetime::set_file_times(path, atime, mtime),
+            (Some(atime), None) => filetime::set_file_atime(path, atime),
+            (None, Some(mtime)) => filetime::set_file_mtime(path, mtime),
+            (None, None) => Ok(()),
+        },
+        Err(e) => Err(e),
+    }
+}
+
 /// Moves the file at `path` to the back of the second chance list.
 fn move_to_back_of_list(path: &Path) -> Result<()> {
     let mtime = FileTime::now();
@@ -59,7 +83,7 @@ fn move_to_back_of_list(path: &Path) -> Result<()> {
             .saturating_sub(ENFORCED_ATIME_MTIME_DELTA_SEC),
         mtime.nanoseconds(),
     );
-    filetime::set_file_times(path, atime, mtime)
+    set_times_at_path(path, Some(atime), Some(mtime))
 }
 
 /// Marks the file at `path` as read-only.
@@ -89,7 +113,7 @@ fn set_read_only(path: &Path) -> Result<()> {
 /// EFS).
 pub fn touch(path: impl AsRef<Path>) -> Result<bool> {
     fn run(path: &Path) -> Result<bool> {
-        match filetime::set_file_atime(path, FileTime::now()) {
+        match set_times_at_path(path, Some(FileTime::now()), None) {
             Ok(()) => Ok(true),
             // It's OK if the file we're trying to touch was removed:
             // things do disappear from caches.
